@@ -363,7 +363,7 @@ class RestAPI(object):
 
                 # Get State Machine type (STANDARD or EXPRESS) if supplied
                 type = params.get("type", "STANDARD")
-                if type not in {"STANDARD", "EXPRESS"}:
+                if not isinstance(type, str) or type not in {"STANDARD", "EXPRESS"}:
                     self.logger.error(
                         "RestAPI CreateStateMachine: State Machine type {} "
                         "is not supported".format(type)
@@ -391,7 +391,8 @@ class RestAPI(object):
                 character limit described in the CreateStateMachine API page.
                 https://docs.aws.amazon.com/step-functions/latest/apireference/API_CreateStateMachine.html
                 """
-                if len(definition) == 0 or len(definition) > MAX_STATE_MACHINE_LENGTH:
+                if (not isinstance(definition, str) or len(definition) == 0 or
+                    len(definition) > MAX_STATE_MACHINE_LENGTH):
                     self.logger.error(
                         "RestAPI CreateStateMachine: Invalid definition size for State Machine '{}'.".format(name)
                     )
@@ -441,11 +442,18 @@ class RestAPI(object):
                 https://docs.aws.amazon.com/AmazonCloudWatch/latest/logs/iam-access-control-overview-cwl.html
                 """
                 logging_configuration = params.get("loggingConfiguration", {})
+                if not isinstance(logging_configuration, dict):
+                    self.logger.error(
+                        "RestAPI CreateStateMachine: Invalid logging configuration for State Machine '{}'.".format(name)
+                    )
+                    return aws_error("InvalidLoggingConfiguration"), 400
+
                 # Explicitly set default to OFF if not present in request.
                 logging_level = logging_configuration.get("level", "OFF")
                 logging_configuration["level"] = logging_level
 
-                if logging_level not in {"OFF", "ALL", "ERROR", "FATAL"}:
+                if (not isinstance(logging_level, str) or
+                    logging_level not in {"OFF", "ALL", "ERROR", "FATAL"}):
                     self.logger.error(
                         "RestAPI CreateStateMachine: Invalid logging configuration for State Machine '{}'.".format(name)
                     )
@@ -680,9 +688,10 @@ class RestAPI(object):
                     character limit described in the UpdateStateMachine API page.
                     https://docs.aws.amazon.com/step-functions/latest/apireference/API_UpdateStateMachine.html
                     """
-                    if len(definition) == 0 or len(definition) > MAX_STATE_MACHINE_LENGTH:
+                    if (not isinstance(definition, str) or len(definition) == 0 or
+                        len(definition) > MAX_STATE_MACHINE_LENGTH):
                         self.logger.error(
-                            "RestAPI UpdateStateMachine: Invalid definition size for State Machine '{}'.".format(name)
+                            "RestAPI UpdateStateMachine: Invalid definition size for State Machine '{}'.".format(state_machine_arn)
                         )
                         return aws_error("InvalidDefinition"), 400
 
@@ -736,13 +745,20 @@ class RestAPI(object):
                 """
                 logging_configuration = params.get("loggingConfiguration", {})
                 if logging_configuration:
+                    if not isinstance(logging_configuration, dict):
+                        self.logger.error(
+                            "RestAPI UpdateStateMachine: Invalid logging configuration for State Machine '{}'.".format(state_machine_arn)
+                        )
+                        return aws_error("InvalidLoggingConfiguration"), 400
+
                     # Explicitly set default to OFF if not present in request.
                     logging_level = logging_configuration.get("level", "OFF")
                     logging_configuration["level"] = logging_level
 
-                    if logging_level not in {"OFF", "ALL", "ERROR", "FATAL"}:
+                    if (not isinstance(logging_level, str) or
+                        logging_level not in {"OFF", "ALL", "ERROR", "FATAL"}):
                         self.logger.error(
-                            "RestAPI CreateStateMachine: Invalid logging configuration for State Machine '{}'.".format(name)
+                            "RestAPI UpdateStateMachine: Invalid logging configuration for State Machine '{}'.".format(state_machine_arn)
                         )
                         return aws_error("InvalidLoggingConfiguration"), 400
 
@@ -760,7 +776,7 @@ class RestAPI(object):
                                 isinstance(destinations , list) and
                                 len(destinations) == 1):
                             self.logger.error(
-                                "RestAPI CreateStateMachine: Invalid logging configuration for State Machine '{}'.".format(name)
+                                "RestAPI UpdateStateMachine: Invalid logging configuration for State Machine '{}'.".format(state_machine_arn)
                             )
                             return aws_error("InvalidLoggingConfiguration"), 400
 
@@ -849,7 +865,7 @@ class RestAPI(object):
                 quota described in Stepfunction Quotas page.
                 https://docs.aws.amazon.com/step-functions/latest/dg/limits.html
                 """
-                if len(input) > MAX_DATA_LENGTH:
+                if not isinstance(input, str) or len(input) > MAX_DATA_LENGTH:
                     self.logger.error(
                         "RestAPI StartExecution: input size for execution '{}' exceeds "
                         "the maximum number of characters service limit.".format(name)
@@ -984,7 +1000,8 @@ class RestAPI(object):
                 quota described in Stepfunction Quotas page.
                 https://docs.aws.amazon.com/step-functions/latest/dg/limits.html
                 """
-                if len(input_as_string) > MAX_DATA_LENGTH:
+                if (not isinstance(input_as_string, str) or
+                    len(input_as_string) > MAX_DATA_LENGTH):
                     self.logger.error(
                         "RestAPI StartSyncExecution: input size for execution "
                         "'{}' exceeds the maximum number of characters "
@@ -1175,13 +1192,13 @@ class RestAPI(object):
                     return aws_error("StateMachineDoesNotExist"), 400
 
                 status_filter = params.get("statusFilter")
-                if status_filter and status_filter not in {
+                if status_filter and (not isinstance(status_filter, str) or status_filter not in {
                     "RUNNING",
                     "SUCCEEDED",
                     "FAILED",
                     "TIMED_OUT",
                     "ABORTED",
-                }:
+                }):
                     status_filter = None
 
                 """
